@@ -28,7 +28,7 @@ FILES = ['pyglove/core/hyper/object_template.py', 'pyglove/core/hyper/categorica
          'pyglove/core/hyper/derived.py']
 H = 'pyglove.core.hyper.'
 MUT = ('rebind', 'sym_rebind', 'append', 'extend', 'insert', 'pop', 'remove', 'clear', 'update',
-       'setdefault', 'seal', 'use_value_spec', '__setitem__', '__delitem__')
+       'setdefault', 'seal', 'sym_seal', 'use_value_spec', '__setitem__', '__delitem__')
 
 
 def rule_a(ctx):
